@@ -185,19 +185,22 @@ def apply(reg, op):
     """returns 'raised' when the operation was rejected with NoSuchProfileException"""
     from cssutils.profiles import NoSuchProfileException
     kind, arg = op
-    if kind == 'add':
-        reg.addProfile(*_copy_toy(TOYS[arg]))
-    elif kind == 'bulk':
-        reg.addProfiles([_copy_toy(TOYS[a]) for a in arg])
-    elif kind == 'remove':
-        try:
-            reg.removeProfile(arg)
-        except NoSuchProfileException:
-            return 'raised'
-    elif kind == 'removeall':
-        reg.removeProfile(all=True)
-    elif kind == 'default':
-        reg.defaultProfiles = list(arg) if arg else None
+    try:
+        if kind == 'add':
+            reg.addProfile(*_copy_toy(TOYS[arg]))
+        elif kind == 'bulk':
+            reg.addProfiles([_copy_toy(TOYS[a]) for a in arg])
+        elif kind == 'remove':
+            try:
+                reg.removeProfile(arg)
+            except NoSuchProfileException:
+                return 'raised'
+        elif kind == 'removeall':
+            reg.removeProfile(all=True)
+        elif kind == 'default':
+            reg.defaultProfiles = list(arg) if arg else None
+    except Exception as e:  # noqa: BLE001  (no registry operation of the pool may raise anything else: reported by _check_node)
+        return f'error: {type(e).__name__}: {e}'
     return None
 
 
@@ -262,6 +265,11 @@ _REF = {}
 _BUILTINS = None
 
 
+class ReferenceFailure(Exception):
+    """a registry operation that the statement says succeeds (removing a registered profile, adding a new one) raised while the
+    history-free reference registry was being built"""
+
+
 def reference(names, defaults):
     """observation of a registry that got exactly these profiles, in this order, without history: a fresh instance, the absent built-in
     profiles removed one by one (the re-expanding path, not removeProfile(all=True)), the toys added one by one, defaults assigned"""
@@ -273,10 +281,16 @@ def reference(names, defaults):
             _BUILTINS = tuple(reg.profiles)
         for b in _BUILTINS:
             if b not in names:
-                reg.removeProfile(b)
+                try:
+                    reg.removeProfile(b)
+                except Exception as e:  # noqa: BLE001  (removing a REGISTERED profile must succeed; the caller reports it)
+                    raise ReferenceFailure(f'removeProfile({b!r}) on a fresh registry (after removing {[x for x in _BUILTINS if x not in names and _BUILTINS.index(x) < _BUILTINS.index(b)]!r}) raised {type(e).__name__}: {e}')
         for n in names:
             if n in TOYS:
-                reg.addProfile(*_copy_toy(TOYS[n]))
+                try:
+                    reg.addProfile(*_copy_toy(TOYS[n]))
+                except Exception as e:  # noqa: BLE001
+                    raise ReferenceFailure(f'addProfile({n!r}) raised {type(e).__name__}: {e}')
         assert tuple(reg.profiles) == names, (reg.profiles, names)
         if defaults is not None:
             reg.defaultProfiles = list(defaults)
@@ -364,6 +378,9 @@ def _check_node(reg, hist, names, defaults, ghost, path_obs, before_obs, raised,
     kid = ghost.known(names, defaults)
     inputs = {'history': [list(map(_j, h)) for h in hist]}
     hs = ' ; '.join(_show(h) for h in hist)
+    if isinstance(raised, str) and raised.startswith('error: '):
+        out.append(('bounded: a registry operation raises nothing but NoSuchProfileException (for an unknown profile)', f'after [{hs}]: the last operation raised {raised[7:]}', inputs, None))
+        return obs
     if obs['profiles'] != names:
         out.append(('bounded: profiles lists the registered profiles in order', f'after [{hs}]: {obs["profiles"]!r}, expected {names!r}', inputs, None))
         return obs
@@ -388,7 +405,11 @@ def _check_node(reg, hist, names, defaults, ghost, path_obs, before_obs, raised,
             out.append(('bounded: validateWithProfile agrees with validate on validity whatever defaultProfiles is',
                         f'after [{hs}] (defaultProfiles={defaults!r}): validate{pair!r} = {a!r}, validateWithProfile = {b!r}', inputs, kid))
     # function of the contents: equals a registry built directly
-    ref = reference(names, defaults)
+    try:
+        ref = reference(names, defaults)
+    except ReferenceFailure as e:
+        out.append(('bounded: removing a registered profile / adding a new profile succeeds', f'building the registry {names!r} directly: {e}', inputs, None))
+        ref = obs
     d = _diff(obs, ref)
     if d:
         k0 = d[0]
